@@ -190,7 +190,7 @@ CLAIMS = {
 }
 
 import subprocess
-HOOK_COMMIT = subprocess.run(["git", "-C", "/repo", "log", "--format=%H", "-1", "--grep=^verif: optional tracing"], capture_output=True, text=True).stdout.strip()
+HOOK_COMMITS = subprocess.run(["git", "-C", "/repo", "log", "--reverse", "--format=%H", "--grep=^verif: optional tracing"], capture_output=True, text=True).stdout.split()
 PENDING_REASON = "check not built yet in this build session; planned (DESIGN.md §5)"
 
 
@@ -216,9 +216,9 @@ def main():
         "setup_cmd": "./setup.sh",
         "hooks": {
             "guard": "ASPHALT_VERIF_HOOKS",
-            "enable": "one add-only hook: ASPHALT_VERIF_HOOKS=trace makes Context.add_teardown_callback wrap callbacks so that registration/start/end are appended to asphalt.core._verif.TRACE (used by C01 to trace the repository's own test suite); everything else is observed through the public API; checks import /repo/src directly",
+            "enable": "add-only hooks in src/asphalt/core/_verif.py, active only when ASPHALT_VERIF_HOOKS=trace at import time: (1) Context.add_teardown_callback wraps callbacks so that registration/start/end are appended to asphalt.core._verif.TRACE (C01 traces the repository's own test suite with it); (2) asphalt.core.__init__ calls _verif.install(), which wraps the public Context operations and Signal.dispatch from the outside so that each call records arguments, outcome, dispatched ResourceEvents and all contexts' tables (C02 C03 C04 C13 C18 validate the recorded test suite and harness/scenarios.py against Ctx.tla with specs/Trace_CtxSuite.tla); everything else is observed through the public API; checks import /repo/src directly",
             "baseline_off_cmd": "cd /repo && /venv/bin/python -m pytest -ra -q -p no:cacheprovider --timeout=900 --continue-on-collection-errors",
-            "source_commits": [HOOK_COMMIT],
+            "source_commits": HOOK_COMMITS,
             "add_only": True,
         },
         "engines": [{"name": "tlc", "path": "/opt/veriftools/tla/tla2tools.jar", "serves_properties": sorted(CLAIMS),
